@@ -91,7 +91,7 @@ def quiet_logger():
 def gen_jobs(rnd, n, fail_at=None):
     jobs = []
     for k in range(n):
-        kind = rnd.choice(["source", "source", "data", "empty-coll", "ctx-only-params"])
+        kind = rnd.choice(["source", "source", "data", "empty-coll", "ctx-only-params", "source", "data", "empty-coll", "ctx-only-params", "no-nodes"])
         ctx = {"a": f"ctx{k}", "tag": k}
         data = None
         if kind == "source":
@@ -100,6 +100,10 @@ def gen_jobs(rnd, n, fail_at=None):
         elif kind == "data":
             data = ("TData", ["init", k])
             nodes = [{"processor": "TOp2", "parameters": {"a": k}}, {"processor": "TOpW"}]
+        elif kind == "no-nodes":
+            # boundary of the pipeline length: zero nodes is a valid pipeline, the payload comes back unchanged
+            data = ("TData", ["untouched", k])
+            nodes = []
         elif kind == "empty-coll":
             data = ("TColl", [])
             nodes = [{"processor": "TMerge"}, {"processor": "TOp1Def", "parameters": {"a": f"m{k}"}}]
@@ -109,9 +113,9 @@ def gen_jobs(rnd, n, fail_at=None):
         if fail_at == k:
             how = rnd.choice(["proc", "proc", "kw-only-exception", "unknown-parameter", "unresolved-parameter", "type-mismatch"])
             if how == "proc":
-                nodes.insert(rnd.randrange(1, len(nodes) + 1), {"processor": "TFail"})
+                nodes.insert(rnd.randrange(min(1, len(nodes)), len(nodes) + 1), {"processor": "TFail"})
             elif how == "kw-only-exception":
-                nodes.insert(rnd.randrange(1, len(nodes) + 1), {"processor": "TFailKw"})
+                nodes.insert(rnd.randrange(min(1, len(nodes)), len(nodes) + 1), {"processor": "TFailKw"})
             elif how == "unknown-parameter":
                 nodes.append({"processor": "TOp0", "parameters": {"bogus": 1}})
             elif how == "unresolved-parameter":
@@ -161,7 +165,7 @@ def direct(job):
 # one batch through the real master / workers
 # ---------------------------------------------------------------------------------------------
 
-def run_batch(jobs, n_workers, switch, delays, fast=True, grace=6.0):
+def run_batch(jobs, n_workers, switch, delays, fast=True, grace=6.0, prequeue=False):
     pipegen.setup()
     from semantiva.execution.job_queue.queue_orchestrator import QueueSemantivaOrchestrator
     from semantiva.execution.job_queue.worker import worker_loop
@@ -182,8 +186,9 @@ def run_batch(jobs, n_workers, switch, delays, fast=True, grace=6.0):
                                         args=(w, transport, SequentialSemantivaExecutor(), stop), kwargs={"logger": lg, "poll_interval": 0.001}))
     futures = []
     try:
-        for t in threads:
-            t.start()
+        if not prequeue:
+            for t in threads:
+                t.start()
         for job, delay in zip(jobs, delays):
             if delay:
                 time.sleep(delay)
@@ -193,6 +198,10 @@ def run_batch(jobs, n_workers, switch, delays, fast=True, grace=6.0):
             fut = orch.enqueue(copy.deepcopy(job["nodes"]), data=make_data(job["data"]), context=ContextType(ctx),
                                return_future=True)
             futures.append(fut)
+        if prequeue:
+            # a burst: the whole batch is waiting in the master's queue when the master and the workers start
+            for t in threads:
+                t.start()
         # wait for quiescence: every future done, or nothing left anywhere for `grace` seconds
         deadline = time.time() + 60
         idle_since = None
@@ -489,16 +498,19 @@ def run(tier: str) -> int:
     stats = {"batches": 0, "jobs": 0, "workers": {}, "switch": {}, "failing_jobs": 0, "events": 0, "replayed": 0, "kinds": {}, "real_queue_batches": 0}
     mism = []
     samples = []
-    for b in range(n_batches):
-        n = rnd.randrange(1, max_jobs + 1) if b % 7 != 6 else rnd.randrange(1, 6)
+    bursts = [17, 33, 40] if tier == "quick" else [16, 17, 18, 31, 32, 33, 34, 40, 40, 64, 65]
+    for b in range(n_batches + len(bursts)):
+        burst = b >= n_batches
+        n = bursts[b - n_batches] if burst else (rnd.randrange(1, max_jobs + 1) if b % 7 != 6 else rnd.randrange(1, 6))
         fail_at = rnd.randrange(n) if b % 2 == 1 else None
         jobs = gen_jobs(rnd, n, fail_at)
         nw = 1 + b % 4
         switch = rnd.choice([1e-6, 1e-5, 1e-4, 5e-3])
-        delays = [rnd.choice([0, 0, 0, 0.0005, 0.002]) for _ in jobs]
+        delays = [0 if burst else rnd.choice([0, 0, 0, 0.0005, 0.002]) for _ in jobs]
         fast = b % 7 != 6
+        stats["bursts"] = stats.get("bursts", 0) + (1 if burst else 0)
         # once hanging Futures have been demonstrated, further batches need not wait long for quiescence
-        results, events, alive = run_batch(jobs, nw, switch, delays, fast=fast, grace=(6.0 if len(rep.violations) < 2 else 0.8))
+        results, events, alive = run_batch(jobs, nw, switch, delays, fast=fast, grace=(6.0 if len(rep.violations) < 2 else 0.8), prequeue=burst)
         stats["batches"] += 1
         stats["jobs"] += n
         stats["workers"][nw] = stats["workers"].get(nw, 0) + 1
